@@ -423,11 +423,18 @@ class Gen:
                 for _ in range(r.randint(1, 3)):
                     k = r.random()
                     if k < 0.5:
-                        items.append(('light', ('str', r.choice(self.light_names() or ['missing']))))
+                        spec = ('str', r.choice(self.light_names() or ['missing']))
+                        if self.name_vars and self.locals is None and r.random() < 0.3:
+                            spec = ('var', r.choice(self.name_vars))
+                        items.append(('light', spec))
                     elif k < 0.75:
                         items.append(('group', ('str', r.choice(GROUP_POOL))))
                     else:
                         items.append(('location', ('str', r.choice(LOC_POOL))))
+                    # any value may stand for a name: `{"Top"}`, `{v}`, `group {"Pole"}`
+                    if self.feature('iter_values') and r.random() < 0.3:
+                        kind, spec = items[-1]
+                        items[-1] = (kind, ('expr', spec if spec[0] == 'var' else ('str', spec[1])))
                 hdr = ('in', items, lv, with_part)
             self.name_vars.append(lv)
             if form in ('group', 'location'):
@@ -688,6 +695,8 @@ def expr_tokens(e, parent_prec=0, right_side=False):
         return [num_text(v)]
     if k in ('var', 'reg', 'macro'):
         return [e[1]]
+    if k == 'str':
+        return ['"' + e[1] + '"']
     if k == 'call':
         toks = ['[', e[1]]
         for a in e[2]:
@@ -760,7 +769,7 @@ def stmt_tokens(s):
     if k == 'break':
         return ['break']
     if k == 'get':
-        return ['get'] + name_tokens(s[1])
+        return ['get'] + (rvalue_tokens(s[1]) if s[1][0] == 'expr' else name_tokens(s[1]))
     if k == 'timeat':
         toks = ['time', 'at', s[1][0]]
         for p in s[1][1:]:
@@ -880,10 +889,11 @@ def repeat_tokens(s):
             if not first:
                 toks.append('and')
             first = False
+            spec_toks = rvalue_tokens(item[1]) if item[1][0] == 'expr' else name_tokens(item[1])
             if item[0] == 'light':
-                toks += name_tokens(item[1])
+                toks += spec_toks
             else:
-                toks += [item[0]] + name_tokens(item[1])
+                toks += [item[0]] + spec_toks
         toks += ['as', hdr[2]] + with_tokens(hdr[3])
     else:
         raise ValueError(hdr)
@@ -979,6 +989,8 @@ def expr_sexp(e, envs):
     k = e[0]
     if k == 'num':
         return _lit_expr(e[1])
+    if k == 'str':
+        return '(lit {})'.format(val_atom(e[1]))
     if k == 'macro':
         return '(lit {})'.format(val_atom(envs.macros[e[1]]))
     if k == 'var':
